@@ -19,12 +19,15 @@ import "fmt"
 // concurrent calls are race-free under every interleaving.
 //
 //	op    0 Call, 1 Convert, 2 Redefine, 3 Call twice (second application of every shared Arg),
-//	      4 Redefine then call the redefined function
+//	      4 Redefine then call the redefined function,
+//	      5 call a shared function that an earlier Redefine returned (the target symbolically fails)
 //	mix   which option kinds are in the shared option slice (bit set, symbolic extras)
 //	once  1: the converter chain contains a run-once converter
 func HarnessC12(op, once int) {
 	hOrderSites(0)
 	x, y := vnPayload("x"), vnPayload("y")
+	targetFails := vnBool("targetFails")
+	errTarget := fmt.Errorf("target failed")
 	var onceOpts []Arg
 	if once == 1 {
 		onceOpts = []Arg{FuncOnce()}
@@ -45,6 +48,9 @@ func HarnessC12(op, once int) {
 		Dflt hP0
 		C    hP2 `argmapper:",typeOnly"`
 	}) (hP1, error) {
+		if targetFails {
+			return hP1{}, errTarget
+		}
 		return in.A, nil
 	}, defaults...)
 	if err1 != nil || err2 != nil || err3 != nil {
@@ -69,6 +75,7 @@ func HarnessC12(op, once int) {
 		opts = append(opts, TypedSubtype(hP2{y}, "s"))
 		desc += "TypedSubtype "
 	}
+	nVals := len(opts)
 	if vnBool("optConvFunc") {
 		opts = append(opts, ConverterFunc(conv1, conv2))
 		desc += "ConverterFunc "
@@ -86,9 +93,21 @@ func HarnessC12(op, once int) {
 	}
 	vnNote(fmt.Sprintf("op=%d once=%d shared options: %s", op, once, desc))
 	vnOnDivergence("", "")
-	vnEpoch(target, conv1, conv2, opts, defaults)
+	// a function obtained from Redefine earlier, from the converters alone (so it still
+	// needs value inputs), is shared too
+	redefined, errRd := target.Redefine(opts[nVals:]...)
+	if errRd != nil {
+		redefined = nil
+	}
+	vnEpoch(target, conv1, conv2, opts, defaults, redefined)
 	doOp := func(op int) {
 		switch op {
+		case 5:
+			if redefined == nil {
+				vnAssume(false)
+			}
+			r := redefined.Call(opts...)
+			_ = r.Err()
 		case 0:
 			r := target.Call(opts...)
 			_ = r.Err()
@@ -112,7 +131,7 @@ func HarnessC12(op, once int) {
 		}
 	}
 	// the second goroutine performs a symbolically chosen operation (possibly the same one)
-	op2 := hPick("op2", 5)
+	op2 := hPick("op2", 6)
 	vnNoteAppend(fmt.Sprintf(" | together with op=%d", op2))
 	panicked := hGuardPlain(func() {
 		vnTogether(func() { doOp(op) }, func() { doOp(op2) })
